@@ -5,6 +5,7 @@ import json
 import os
 
 from vlib import core, cover_inst as ci, cover_coq as cq, cover_bbgen
+from vlib import cover_ccgen
 from vlib.core import Broken, Mismatch, Failing
 from oracles import cover_brute as brute
 
@@ -31,14 +32,20 @@ CORES3 = [126, 189, 219, 231]   # the 3-variable functions with a cyclic core
 def prove(ctx):
     with ctx.coq_lock():
         cover_bbgen.ensure(ctx)
+        cover_ccgen.ensure(ctx)
         ctx.prove('Properties/C09.v', timeout=1200)
     ctx.trusted.append(cover_bbgen.TRUSTED)
+    ctx.trusted.append(cover_ccgen.TRUSTED)
     ctx.trusted.append(
-        'tie H: omega/symbolic/cover.py (minimize, cyclic_core) is modelled '
-        'by hand in L5Cover/MinCover.v; on every run the real cover is '
-        'validated by the verified checker is_min_prime_cover_b evaluated in '
-        'Coq, cyclic_core results are compared exactly with the model, and '
-        'cardinalities of the model and the real minimize are compared')
+        'tie H: what remains modelled by hand in L5Cover/MinCover.v / Boxes.v '
+        'below the translated functions of omega/symbolic/cover.py: the '
+        'lattice formulas _floor / _maxima / _contains_covered (pinned source '
+        'text -> ceil, floor, maxima), orthotopes.embed_as_implicants / '
+        'prime_implicants (embed, primes) and the meaning of the dd '
+        'operations; on every run the real cover is validated by the '
+        'verified checker is_min_prime_cover_b evaluated in Coq, cyclic_core '
+        'results are compared exactly with the model, and cardinalities of '
+        'the model and the real minimize are compared')
 
 
 # ------------------------------------------------------------------ instances
